@@ -566,6 +566,7 @@ func runC01(w *World, r *Report) {
 			a, b, c, ok := lin(first.Common().Args[1], 0)
 			r.Check(ok && a == 1 && b == 2 && c == 0, "C01.copy-partition", "copy count = len(writeTo) + 2*len(writeToBranches)", first.Pos(), "one copy per edge successor, one per branch condition, one per branch result", fmt.Sprintf("copy count is %d*len(writeTo)+%d*len(branches)+%d (recognised=%v)", a, b, c, ok))
 		}
+		fanoutCountCheck(w, r, "C01.copy-partition")
 		for _, c := range callsTo(rct, cbr) {
 			good := false
 			det := ""
@@ -691,4 +692,84 @@ func aliasesThroughCells(v ssa.Value) []ssa.Value {
 		}
 	}
 	return out
+}
+
+// fanoutCountCheck: see C01.copy-partition (second fan-out); shared with C19.
+func fanoutCountCheck(w *World, r *Report, rule string) {
+	rct := w.Fn("compose", "runner.resolveCompletedTasks")
+	ci := w.Fn("compose", "copyItem")
+	fWT := w.Field("compose", "chanCall", "writeTo")
+	fWB := w.Field("compose", "chanCall", "writeToBranches")
+	var first ssa.CallInstruction
+	for _, c := range callsTo(rct, ci) {
+		if first == nil || instrDominates(c, first) {
+			first = c
+		}
+	}
+	var second ssa.CallInstruction
+	for _, c := range callsTo(rct, ci) {
+		if c != first && (second == nil || instrDominates(second, c)) {
+			second = c
+		}
+	}
+	if second == nil {
+		r.Fail(rule, "resolveCompletedTasks splits the last reserved copy", rct.Pos(), "no second copyItem call")
+	} else {
+		// linear form over W, B and N = len(<the successor key list>)
+		var nSym ssa.Value
+		var lin4 func(v ssa.Value, d int) (a, b, n, c int64, ok bool)
+		lin4 = func(v ssa.Value, d int) (int64, int64, int64, int64, bool) {
+			if d > 8 {
+				return 0, 0, 0, 0, false
+			}
+			if k, ok := constInt(v); ok {
+				return 0, 0, 0, k, true
+			}
+			switch x := v.(type) {
+			case *ssa.Call:
+				if isBuiltin(x, "len") {
+					arg := x.Call.Args[0]
+					if isLoadOfField(arg, fWT) {
+						return 1, 0, 0, 0, true
+					}
+					if isLoadOfField(arg, fWB) {
+						return 0, 1, 0, 0, true
+					}
+					if nSym == nil || nSym == arg {
+						nSym = arg
+						return 0, 0, 1, 0, true
+					}
+				}
+			case *ssa.BinOp:
+				a1, b1, n1, c1, ok1 := lin4(x.X, d+1)
+				a2, b2, n2, c2, ok2 := lin4(x.Y, d+1)
+				if !ok1 || !ok2 {
+					return 0, 0, 0, 0, false
+				}
+				switch x.Op {
+				case token.ADD:
+					return a1 + a2, b1 + b2, n1 + n2, c1 + c2, true
+				case token.SUB:
+					return a1 - a2, b1 - b2, n1 - n2, c1 - c2, true
+				}
+			}
+			return 0, 0, 0, 0, false
+		}
+		a, b, n, c, ok := lin4(second.Common().Args[1], 0)
+		// the key list N must be what the distribution loop ranges over
+		ranged := false
+		if nSym != nil {
+			instrs(rct, func(in ssa.Instruction) {
+				if cl, ok := in.(*ssa.Call); ok && isBuiltin(cl, "len") && cl.Call.Args[0] == nSym {
+					for _, ref := range *cl.Referrers() {
+						if bo, ok := ref.(*ssa.BinOp); ok && bo.Op == token.LSS {
+							ranged = true
+						}
+					}
+				}
+			})
+		}
+		r.Check(ok && a == -1 && b == -1 && n == 1 && c == 1 && ranged, rule, "second fan-out count = len(successors) - len(writeTo) - len(writeToBranches) + 1", second.Pos(), "copies and selected successors match one to one",
+			fmt.Sprintf("the last reserved copy is split into %d*len(writeTo)%+d*len(branches)%+d*len(successors)%+d copies (recognised=%v, successor list is the ranged one=%v): with two or more branches on one node the surplus copies are handed to nobody and never closed — the copy parent never closes the node's stream and its producer stays blocked once the caller stops reading early", a, b, n, c, ok, ranged))
+	}
 }
